@@ -202,12 +202,15 @@ class Evaluator:
     def _bind(self, fi, args, kwargs, frame_facts, depth, where='?'):
         params = list(fi.params)
         env = {}
-        if len(args) > len(params) and fi.node.args.vararg is None:
+        # positional arguments fill the positional parameters only; what is left goes to *args (keyword-only parameters
+        # are never filled by position)
+        npos = len(fi.node.args.posonlyargs) + len(fi.node.args.args)
+        if len(args) > npos and fi.node.args.vararg is None:
             return None
-        for p, a in zip(params, args):
+        for p, a in zip(params[:npos], args):
             env[p] = a
         if fi.node.args.vararg is not None:
-            env[fi.node.args.vararg.arg] = T.tup(args[len(params):])
+            env[fi.node.args.vararg.arg] = T.tup(args[npos:])
         for k, v in kwargs.items():
             if k in env or k not in params:
                 if fi.node.args.kwarg is None:
